@@ -5,8 +5,13 @@ import (
 )
 
 // C15: undefined properties (no term, no vocabulary) at top level, nested, inside array members
+var undefNames []string // when set: the names to use for undefined properties (C15 sets it for contexts without the id/type aliases)
+
 func injectUndef(n *ANode, r *Rng, left *int, depth int) {
-	if *left > 0 && r.Chance(35) {
+	if *left > 0 && r.Chance(35) && len(undefNames) > 0 && len(n.Undef) == 0 {
+		*left--
+		n.Undef = append(n.Undef, KV{r.Pick(undefNames), r.Pick([]string{"some text", "urn:x:y", "T1"})})
+	} else if *left > 0 && r.Chance(35) {
 		*left--
 		var v any
 		switch r.Intn(9) {
@@ -55,6 +60,12 @@ func countUndef(n *ANode) int {
 func genC15(out *Out, r *Rng, tier string, n int, shard int) {
 	for i := 0; i < n; i++ {
 		g := NewDocGen(r, 1+r.Intn(3))
+		undefNames = nil
+		if r.Chance(30) {
+			// a context that does not alias id/type: properties of exactly these names are as undefined as any other
+			g.noAliasTerms = true
+			undefNames = []string{"id", "type"}
+		}
 		root := g.node(g.sch.Root, 0, r.Bool())
 		left := 1 + r.Intn(3)
 		for try := 0; try < 5 && countUndef(root) == 0; try++ {
